@@ -5,6 +5,7 @@ import KyupyVerif.Proofs.VerilogLib6
 import KyupyVerif.Proofs.VerilogLibFit
 import KyupyVerif.Proofs.FormatEquiv
 import KyupyVerif.Proofs.FormatEquiv2
+import KyupyVerif.Proofs.FormatEquiv3
 /-! # C11 (capstone) — structural Verilog over a CELL LIBRARY: text → parse → `resolve_tlib_cells` → `SimOps` → `LogicSim`
 computes the DATASHEET denotation of the module
 
@@ -837,6 +838,41 @@ example : ((benchNet (benchOf exNl)).sNodes.map fun n => ((benchNet (benchOf exN
       rw [this] at hp
       rcases (by omega : p = 0 ∨ p = 1 ∨ p = 2 ∨ p = 3) with rfl | rfl | rfl | rfl <;> rfl)
   exact hcap
+
+/-- **both renderings of a CLOSED description build** (`closedNlB`: `commonNlB`, no kind is the literal `__fork__`, every operand is a
+gate name or an input port, no gate name / input port looks like a constant bit `1'b…` — decidable, about the description only):
+`benchOKB` of the bench rendering, and — without branch forks, the default of `verilog.parse` — the fragment `verilogOKB` of the
+Verilog rendering; both arity domains -/
+theorem renderings_build (cfg : Cfg) (hbf : cfg.bf = false) (nl : Nl) (h : closedNlB nl = true) :
+    commonNlB nl = true ∧ benchOKB (benchOf nl) = true ∧ benchArityB (benchOf nl) = true ∧
+    verilogOKB cfg primTL nl.portNames (verilogOf nl) = true ∧ vArityB primTL (verilogOf nl) = true :=
+  ⟨(closedNl_of nl h).1, benchOK_benchOf nl (commonNl_of nl (closedNl_of nl h).1) (closedNl_of nl h).2.kinds,
+    benchArity_benchOf nl (commonNl_of nl (closedNl_of nl h).1),
+    verilogOK_verilogOf cfg hbf nl (commonNl_of nl (closedNl_of nl h).1) (closedNl_of nl h).2, vArity_verilogOf nl⟩
+
+/-- **`bench_verilog_sim_equiv_closed`**: `bench_verilog_sim_equiv` with hypotheses on the DESCRIPTION and the two schedules only -/
+theorem bench_verilog_sim_equiv_closed (cfg : Cfg) (hbf : cfg.bf = false) (nl : Nl) (hcl : closedNlB nl = true)
+    (orderB orderV : List Nat)
+    (hoB : orderOKB (benchNet (benchOf nl)) orderB = true) (hfB : forksOKB (benchNet (benchOf nl)) orderB = true)
+    (hlB : linesDrivenB Gen.kindPrefixes (benchNet (benchOf nl)) orderB = true)
+    (hoV : orderOKB (verilogNet cfg primTL nl.portNames (verilogOf nl)) orderV = true)
+    (hfV : forksOKB (verilogNet cfg primTL nl.portNames (verilogOf nl)) orderV = true)
+    (hlV : linesDrivenB Gen.kindPrefixes (verilogNet cfg primTL nl.portNames (verilogOf nl)) orderV = true)
+    (envB envV : Nat → Bool)
+    (hz : envB (benchNet (benchOf nl)).idx.zero = envV (verilogNet cfg primTL nl.portNames (verilogOf nl)).idx.zero)
+    (hst : ∀ p, p < nl.nPos →
+      envB ((benchNet (benchOf nl)).idx.ppi + p) = envV ((verilogNet cfg primTL nl.portNames (verilogOf nl)).idx.ppi + p)) :
+    ((benchNet (benchOf nl)).sNodes.map fun n => ((benchNet (benchOf nl)).node n).inPin 0 |>.map
+        (exec semL2n ((genOps Gen.kindPrefixes (benchNet (benchOf nl)) orderB false).map OpRow.toOp) envB)) =
+      ((verilogNet cfg primTL nl.portNames (verilogOf nl)).sNodes.map fun n =>
+        ((verilogNet cfg primTL nl.portNames (verilogOf nl)).node n).inPin 0 |>.map
+          (exec semL2n ((genOps Gen.kindPrefixes (verilogNet cfg primTL nl.portNames (verilogOf nl)) orderV false).map OpRow.toOp) envV)) := by
+  obtain ⟨h1, h2, _, h3, _⟩ := renderings_build cfg hbf nl hcl
+  obtain ⟨_, _, _, _, _, _, hcap⟩ := bench_verilog_sim_equiv cfg nl h1 h2 h3 orderB orderV hoB hfB hlB hoV hfV hlV envB envV hz hst
+  exact hcap
+
+/-- the example description is closed -/
+example : closedNlB exNl = true := by decide +kernel
 
 end FormatEquiv
 
